@@ -27,7 +27,7 @@ func init() {
 		ID: "C15", Level: "model_checking",
 		Rule:   "BX: every byte string up to the stated length through HuffmanEncode and HuffmanDecode vs the RFC 7541 reference and x/net; AX: BFS over the reference decoding automaton (tree position at byte boundaries), each state reached by 2 access strings, each state x next byte x 7 completions compared. A case is non-trivial when the reference rejects it or it decodes/encodes at least 2 symbols; distinct by input bytes.",
 		Assume: []string{"ref/hufftab.go is RFC 7541 Appendix B (transcribed from x/net, compared symbol by symbol with x/net at run time)", "decoder behaviour depends only on (tree position, pending bits): tested by the second access string per state, not proved"},
-		Run:    runC15, Replay: replayC15, QuickS: 40, ThoroughS: 600,
+		Run:    runC15, Replay: replayC15, QuickS: 120, ThoroughS: 600,
 	})
 }
 
